@@ -630,7 +630,13 @@ def do_fetch(ctx, W, case, src_name, tgt_name, rev, find_ghosts, mode, batch):
         if outcome != "E:Incompatible":
             V("fetch from a rich-root into a non-rich-root repository did not fail with IncompatibleRepositories: %s" % outcome)
     elif outcome != "ok":
-        V("fetch failed: %s" % outcome)
+        fam = None
+        if not closed and not find_ghosts:
+            # the target holds a revision one of whose parents it lacks while the source has it, and the
+            # caller did not ask for ghosts to be filled: the data of that parent is needed but not sent
+            fam = "fetch-fails-when-target-has-a-ghost-the-source-has:" + outcome.split(":")[1]
+        V("fetch failed: %s" % outcome, family=fam)
+        corrupt = corrupt or fam
     # ---------------- monotone: nothing the target had is changed
     for kind in ("revs", "invs", "texts", "tparents"):
         for k, v in pre_t[kind].items():
@@ -710,6 +716,8 @@ def do_fetch(ctx, W, case, src_name, tgt_name, rev, find_ghosts, mode, batch):
                             V("testament of %r differs between source and target" % (r,))
         if corrupt or len(ctx.violations) > nviol0:
             W.tainted[tgt_name] = corrupt or "unclassified"
+    if corrupt or len(ctx.violations) > nviol0:
+        W.tainted[tgt_name] = corrupt or "unclassified"
         # ---------------- consistency check
         if W.tainted.get(tgt_name) or W.tainted.get(src_name):
             ctx.count("check-skipped:repository-damaged-by-an-earlier-reported-fetch")
@@ -787,8 +795,8 @@ def do_fetch(ctx, W, case, src_name, tgt_name, rev, find_ghosts, mode, batch):
             case = dict(case, owned_only=True)
     else:
         impl = outcome.split(":")[0] + ":" + outcome.split(":")[1]
-    if outcome == "ok" and rev in pre_s["revs"] and corrupt:
-        ctx.count("T2-skipped:stored-text-corrupted")
+    if rev in pre_s["revs"] and corrupt:
+        ctx.count("T2-skipped:reported-by-the-oracle(%s)" % str(corrupt).split(":")[0])
     elif not (incompatible and outcome == "E:Incompatible"):
         batch.append((case, line, impl))
     return outcome, post_t
@@ -931,6 +939,14 @@ def run_scenario(ctx, key, stop_at=None):
                     ctx.count("scenario-stopped:a-fetch-damaged-its-target")
                 return batch
         return batch
+    except Exception as e:
+        # building the history (commits through BranchBuilder) or the harness' own reads failed on the real code
+        import traceback
+        tb = traceback.extract_tb(e.__traceback__)
+        where = next(("%s:%s" % (os.path.basename(f.filename), f.name) for f in reversed(tb) if "/breezy/" in f.filename), "?")
+        ctx.violation(dict(key=list(key), step=None), "scenario could not be executed on the real code: %s: %s (in %s)"
+                      % (type(e).__name__, str(e)[:300], where))
+        return batch
     finally:
         if W.server is not None:
             W.server.stop()
@@ -1005,7 +1021,9 @@ def widen(ctx):
 
 
 def replay(ctx, case):
-    batch = run_scenario(ctx, tuple(case["key"]), stop_at=case["step"])
+    batch = run_scenario(ctx, tuple(case["key"]), stop_at=case.get("step"))
+    if case.get("step") is None:
+        return dict(case=case, oracle_failures=[v["what"] for v in ctx.violations])
     last = [b for b in batch if b[0]["step"] == case["step"]]
     out = dict(case=case, oracle_failures=[v["what"] for v in ctx.violations if v["case"] and v["case"].get("step") == case["step"]])
     if last:
